@@ -224,7 +224,7 @@ func c17IsNum(s string) bool {
 	return true
 }
 
-var c17Spellings = []string{"dotted", "bracket", "quoted-bracket", "mixed"}
+var c17Spellings = []string{"dotted", "bracket", "quoted-bracket", "mixed", "padded-bracket"}
 
 // c17Spell writes root followed by steps in one of the four spellings.
 func c17Spell(root string, steps []string, sp int) string {
@@ -250,6 +250,14 @@ func c17Spell(root string, steps []string, sp int) string {
 			br(false)
 		case 2:
 			br(true)
+		case 4: // blanks inside the brackets, as Go (and the engine's own trimming) allows: a[ 'k' ][ 0 ]
+			if num {
+				b.WriteString("[ " + s + " ]")
+			} else if i%2 == 0 {
+				b.WriteString("[ '" + s + "' ]")
+			} else {
+				b.WriteString(`["` + s + `" ]`)
+			}
 		default:
 			if i%2 == 0 {
 				br(i%4 == 0)
